@@ -46,7 +46,7 @@ Section Kin3.
   Definition InvA (w : WS) (k : nat) : Prop :=
     Good O M w /\ ga O w 0 = svzero O /\
     forall j, 0 < j < k -> gv O w j = vF O M q qd j /\ gc O w j = cU j /\ ga O w j = aU j /\ jS O M w j = SF O M q j /\
-                           gXb O w j = XbF O M q j.
+                           gXb O w j = XbF O M q j /\ gXl O w j = XlF O M q j.
 
   Lemma uk_step_invA w i : 0 < i < n -> InvA w i -> InvA (uk_step O M q qd qdd w i) (S i).
   Proof.
@@ -108,7 +108,8 @@ Section Kin3.
         * unfold ga; wsimp. exact Ea.
         * rewrite (jS_ext O M w1) by (wsimp; assumption). exact HS.
         * unfold gXb; wsimp. rewrite E2X. apply nth_upd_eq. lia.
-      + assert (Hjk : 0 < j < i) by lia. destruct (Hinv j Hjk) as (A & B & C & D & F).
+        * unfold gXl; wsimp. rewrite E2Xl. exact HXl.
+      + assert (Hjk : 0 < j < i) by lia. destruct (Hinv j Hjk) as (A & B & C & D & F & G).
         repeat split.
         * unfold gv; wsimp. rewrite E2v, nth_upd_neq by auto. rewrite Uv. exact A.
         * unfold gc; wsimp. rewrite nth_upd_neq by auto. rewrite E2c, Uc. exact B.
@@ -116,11 +117,17 @@ Section Kin3.
         * rewrite (jS_ext O M w1) by (wsimp; assumption). unfold w1, jcalc.
           rewrite (jS_frame O M cust_inj); auto; unfold n in *; lia.
         * unfold gXb; wsimp. rewrite E2X, nth_upd_neq by auto. rewrite UXb. exact F.
+        * unfold gXl; wsimp. rewrite E2Xl. fold (gXl O w1 j). unfold w1, jcalc.
+          rewrite (proj1 (jcalc_other O true M w i q qd j Hne)). exact G.
   Qed.
+
+  Lemma uk_good (w : WS) : Good O M w -> Good O M (update_kinematics O M w q qd qdd).
+  Proof. intros Hg. exact (proj1 (uk_v_spec O M w q qd qdd W Hg)). Qed.
 
   Theorem uk_a_spec (w : WS) : Good O M w ->
     let w' := update_kinematics O M w q qd qdd in
-    forall i, 0 < i < n -> gv O w' i = vF O M q qd i /\ gc O w' i = cU i /\ ga O w' i = aU i /\ gXb O w' i = XbF O M q i.
+    forall i, 0 < i < n -> gv O w' i = vF O M q qd i /\ gc O w' i = cU i /\ ga O w' i = aU i /\ gXb O w' i = XbF O M q i /\
+                          gXl O w' i = XlF O M q i.
   Proof.
     intros Hg. cbv zeta. rewrite uk_is_fold. unfold body_range.
     pose proof (wf_pos M W) as Hpos. fold n in Hpos.
@@ -135,7 +142,7 @@ Section Kin3.
         + intros j Hj. lia.
       - intros w' i Hi HI. apply uk_step_invA; auto. lia. }
     replace (1 + Nat.pred n) with n in K by lia.
-    intros i Hi. destruct K as (_ & _ & K). destruct (K i Hi) as (A & B & C & _ & F). auto.
+    intros i Hi. destruct K as (_ & _ & K). destruct (K i Hi) as (A & B & C & _ & F & G). auto.
   Qed.
 
   (* the 6-D point acceleration of a movable body is a function of model, state and point only *)
@@ -154,8 +161,8 @@ Section Kin3.
     rewrite Hf. unfold point_X, world_orient.
     replace (N.leb fixed_disc (N.of_nat (N.to_nat id))) with false by (symmetry; apply N.leb_gt; lia).
     rewrite !N2Nat.id.
-    destruct (uk_a_spec _ (Z _ G1) _ Hi) as (V1 & _ & A1 & X1).
-    destruct (uk_a_spec _ (Z _ G2) _ Hi) as (V2 & _ & A2 & X2).
+    destruct (uk_a_spec _ (Z _ G1) _ Hi) as (V1 & _ & A1 & X1 & _).
+    destruct (uk_a_spec _ (Z _ G2) _ Hi) as (V2 & _ & A2 & X2 & _).
     rewrite V1, V2, A1, A2, X1, X2. reflexivity.
   Qed.
 End Kin3.
